@@ -50,7 +50,9 @@ func vfSpaceRune(name string) rune {
 // VerifC14Layout: args = [tokens separated by \x1f, gap index, gap kind, notation].
 // The tokens are laid out with single spaces (baseline) and with the gap at the
 // given index replaced by: "space1"/"space2" one or two arbitrary Unicode spaces,
-// "comment" a comment with two arbitrary non-newline characters, "none" nothing
+// "comment" a comment with two arbitrary non-newline characters, "comment0" an empty comment, "comment1" a comment
+// of one character directly after the token, "comment-twice" three comment lines in a row, "comment-lead" /
+// "comment-trail" comments before the first token / after the last one without a final line break, "none" nothing
 // (only where a delimiter makes the boundary), "directive" a ;;;; directive (must be
 // inert after the first token), "lead"/"trail" arbitrary spaces before / after the text.
 // The compiled program must not change.
@@ -70,18 +72,36 @@ func VerifC14Layout(args []string) {
 		c0, c1 := vfAlphabetRune("c0"), vfAlphabetRune("c1")
 		vfAssume(c0 != '\n' && c1 != '\n')
 		filler = " ;" + string([]rune{c0, c1}) + "\n"
+	case "comment0":
+		filler = " ;\n" // an empty comment
+	case "comment1":
+		c0 := vfAlphabetRune("c0")
+		vfAssume(c0 != '\n')
+		filler = ";" + string([]rune{c0}) + "\n" // a semicolon ends the token before it
+	case "comment-twice":
+		c0 := vfAlphabetRune("c0")
+		vfAssume(c0 != '\n')
+		filler = " ;\n;" + string([]rune{c0}) + "\n;\n"
+	case "comment-lead", "comment-trail":
+		c0, c1 := vfAlphabetRune("c0"), vfAlphabetRune("c1")
+		vfAssume(c0 != '\n' && c1 != '\n')
+		if kind == "comment-lead" {
+			filler = ";\n;" + string([]rune{c0}) + "\n"
+		} else {
+			filler = " ;" + string([]rune{c0, c1}) // no line break after the last comment
+		}
 	case "directive":
 		filler = " ;;;; optimize: false\n;;;;reordering:false\n "
 	case "none":
 		filler = ""
 	}
 	var sb strings.Builder
-	if kind == "lead" {
+	if kind == "lead" || kind == "comment-lead" {
 		sb.WriteString(filler)
 	}
 	for i, t := range toks {
 		if i > 0 {
-			if i-1 == gap && kind != "lead" && kind != "trail" {
+			if i-1 == gap && kind != "lead" && kind != "trail" && kind != "comment-lead" && kind != "comment-trail" {
 				sb.WriteString(filler)
 			} else {
 				sb.WriteString(" ")
@@ -89,7 +109,7 @@ func VerifC14Layout(args []string) {
 		}
 		sb.WriteString(t)
 	}
-	if kind == "trail" {
+	if kind == "trail" || kind == "comment-trail" {
 		sb.WriteString(filler)
 	}
 	want := vfC14Compile(base, infix)
